@@ -163,7 +163,7 @@ func runC11(r *h.Run) {
 		return
 	}
 	cmd := o.Val.(plugins.Cmd)
-	noisy := func() bool { return w.Faults["conn.rst"] > 0 }
+	noisy := func() bool { return w.FaultCount("conn.rst") > 0 }
 	checkPrefix := func(when string) {
 		for _, st := range []struct {
 			name string
